@@ -453,7 +453,10 @@ impl<'a> Suite<'a> {
 							x.dedup();
 							x
 						};
+						// the subject asked for is the list of pushes settled by push's rule (kept by the
+						// harness, apart from the real container), and what the real container enumerates
 						let same = p.dn.real().map(|d| dn_of_real(&d)) == Some(got.dn.clone())
+							&& (p.dn.real().is_none() || values_as_parsed(&p.dn.settled()) == values_as_parsed(&got.dn))
 							&& p.san == got.san && set_ku(&p.ku) == set_ku(&got.ku) && set_eku(&p.eku) == set_eku(&got.eku)
 							&& r.public_key.der_bytes() == key.public_key_raw() && r.public_key.algorithm() == key.algorithm();
 						self.rep.count("csr_round_trips");
@@ -480,6 +483,115 @@ error: {:?}", out.replay(), e)),
 			}
 		}
 		out
+	}
+
+	/// generation with imported RSA keys of every size the back end loads (2048, 3072, 4096 and,
+	/// where it loads, 8192 bits): whatever loads signs, or answers with an error
+	#[cfg(not(feature = "nocrypto"))]
+	pub fn big_key_signing(&mut self) {
+		let mut docs: Vec<(String, Vec<u8>)> = vec![("rsa2048".into(), self.ctx.rsa_fixture.clone())];
+		for f in ["rsa3072", "rsa4096", "rsa8192"] {
+			if let Ok(d) = std::fs::read(format!("/verif/harness/fixtures/{}.pk8", f)) {
+				docs.push((f.into(), d));
+			}
+		}
+		for (name, pkcs8) in docs {
+			for alg in keys::build_algs() {
+				if !alg_name(alg).starts_with("rsa") {
+					continue;
+				}
+				for (loader, res) in crate::props::c01::loaded_keys(alg, &pkcs8) {
+					if !(loader == "from_pkcs8_der_and_sign_algo" || loader == "try_from(&[u8])" || loader == "from_pem") {
+						continue;
+					}
+					let Ok(key) = res else {
+						self.rep.count(&format!("big_key:{}:not-loaded", name));
+						continue;
+					};
+					let what = format!("{} key through {} under {}", name, loader, alg_name(alg));
+					self.rep.case(&what, true);
+					self.rep.count(&format!("big_key:{}:signed", name));
+					let mut p = PCert::empty();
+					p.serial = Some(vec![5]);
+					p.ca = Ca::Ca(None);
+					p.dn = Dn(vec![(DnT::Cn, DnV::Utf8(what.clone()))]);
+					let rp = p.real().unwrap();
+					let cert = std::panic::catch_unwind(std::panic::AssertUnwindSafe(|| rp.clone().self_signed(&key)));
+					let Ok(cert) = cert else {
+						self.rep.violate(&format!("C10:panic:cert:imported-key:{}", panic_site(&crate::last_panic())), "certificate generation panics with an imported key", format!("{}
+key (PKCS#8): {}
+{}", what, hex(&pkcs8), crate::last_panic()));
+						continue;
+					};
+					if std::panic::catch_unwind(std::panic::AssertUnwindSafe(|| rp.serialize_request(&key))).is_err() {
+						self.rep.violate(&format!("C10:panic:csr:imported-key:{}", panic_site(&crate::last_panic())), "CSR generation panics with an imported key", format!("{}
+key (PKCS#8): {}
+{}", what, hex(&pkcs8), crate::last_panic()));
+					}
+					if let Ok(cert) = cert {
+						let crl = gen_crl(&mut self.rng);
+						if let Some(rc) = crl.real() {
+							if std::panic::catch_unwind(std::panic::AssertUnwindSafe(|| rc.signed_by(&cert, &key))).is_err() {
+								self.rep.violate(&format!("C10:panic:crl:imported-key:{}", panic_site(&crate::last_panic())), "CRL generation panics with an imported key", format!("{}
+key (PKCS#8): {}
+{}", what, hex(&pkcs8), crate::last_panic()));
+							}
+						}
+					}
+				}
+			}
+		}
+		self.rep.exhaustive.push("RSA keys of 2048/3072/4096/8192 bits x every RSA algorithm of the build x three loading entry points: certificate, request and CRL generation under catch_unwind".into());
+	}
+
+	/// requests made with keys that came in through every key-loading entry point (instead of the
+	/// generated ones): the requester's SubjectPublicKeyInfo and algorithm as the parser reports
+	/// them, the clause list, and acceptance by rcgen's own parser
+	#[cfg(not(feature = "nocrypto"))]
+	pub fn csr_loaded_keys(&mut self) {
+		let mut docs: Vec<(&'static SignatureAlgorithm, String, Vec<u8>)> = Vec::new();
+		for alg in keys::build_algs() {
+			let name = alg_name(alg).to_string();
+			let pkcs8 = if name.starts_with("rsa") { self.ctx.rsa_fixture.clone() } else { self.ctx.key(&name).serialize_der() };
+			docs.push((alg, name, pkcs8));
+		}
+		for (alg, name, pkcs8) in docs {
+			for (loader, res) in crate::props::c01::loaded_keys(alg, &pkcs8) {
+				let Ok(key) = res else { continue };
+				let mut p = gen_csr_params(&mut self.rng);
+				p.custom.clear();
+				p.eku.retain(|e| !matches!(e, ExtendedKeyUsagePurpose::Other(_)));
+				let Some(rp) = p.real() else { continue };
+				let Ok(Ok(csr)) = std::panic::catch_unwind(std::panic::AssertUnwindSafe(|| rp.serialize_request(&key))) else { continue };
+				let der = csr.der().to_vec();
+				let what = format!("request signed by a {} key loaded through {} (reports {})", name, loader, alg_name(key.algorithm()));
+				self.rep.case(&format!("{} {}", what, hex(&der)), true);
+				self.rep.count("csr_loaded_key_requests");
+				let line = format!("spec-csr {} {} () {}", p.sexp(), key_sexp(&key), hex(&der));
+				let resp = self.drv.ask(&line);
+				for clause in Self::parse_fail(&resp) {
+					if self.mine(&clause) {
+						self.rep.violate(&format!("{}:csr:loaded-key", clause), &format!("CSR violates specification clause {}", clause), format!("{}
+spec-request: {}
+spec-answer: {}", what, line, resp));
+					}
+				}
+				match std::panic::catch_unwind(std::panic::AssertUnwindSafe(|| CertificateSigningRequestParams::from_der(&der.clone().into()))) {
+					Ok(Ok(r)) => {
+						if r.public_key.der_bytes() != key.public_key_raw() || r.public_key.algorithm() != key.algorithm() {
+							self.rep.violate(&format!("C07:round-trip:{}:loaded-key", name), "parsing a generated request back does not return the requester's public key and algorithm", format!("{}
+request: {}", what, hex(&der)));
+						}
+					},
+					Ok(Err(e)) => self.rep.violate(&format!("C07:round-trip-refused:{}:loaded-key", name), "a supported request generated by rcgen is refused by its own parser", format!("{}
+request: {}
+error: {:?}", what, hex(&der), e)),
+					Err(_) => self.rep.violate("C07:round-trip-panics", "parsing a generated request panics", format!("{}
+request: {}", what, hex(&der))),
+				}
+			}
+		}
+		self.rep.exhaustive.push("requests signed by keys loaded through each of the nine key-loading entry points x every algorithm of the build, parsed back".into());
 	}
 
 	pub fn crl(&mut self, p: &PCrl, issuer_idx: usize) -> CaseOut {
@@ -1537,6 +1649,8 @@ pub fn run(ctx: &mut Ctx, prop: &str) -> Report {
 			s.tie_csr = true;
 			s.csr_refusal_sweep();
 			s.csr_attr_sweep();
+			#[cfg(not(feature = "nocrypto"))]
+			s.csr_loaded_keys();
 			s.random_csrs(n(800, 30000));
 		},
 		"C08" => {
@@ -1562,6 +1676,8 @@ pub fn run(ctx: &mut Ctx, prop: &str) -> Report {
 			s.tie_crl = true;
 			s.malformed_stream(n(400, 20000));
 			s.ctor_sweep();
+			#[cfg(not(feature = "nocrypto"))]
+			s.big_key_signing();
 			s.parse_stream(n(300, 20000));
 			s.random_certs(n(200, 8000));
 			s.random_csrs(n(100, 4000));
@@ -1830,4 +1946,10 @@ impl<'a> Suite<'a> {
 			}
 		}
 	}
+}
+
+/// a name with each value in the form the real value type reports it
+#[cfg(not(feature = "nocrypto"))]
+fn values_as_parsed(dn: &Dn) -> Vec<(DnT, DnV)> {
+	dn.0.iter().map(|(t, v)| (t.clone(), v.real().map(|r| DnV::of_real(&r)).unwrap_or_else(|| v.clone()))).collect()
 }
